@@ -89,7 +89,8 @@ theorem cpGeom_mono {s s' : State} (hc : ChunksCov s s') {cp : Checkpoint} (h : 
     exact h
 
 /-- what may happen to the ghost list of live blocks: blocks disappear, new ones get fresh ids -/
-def LiveSub (s s' : State) : Prop := ∀ b ∈ s'.live, b ∈ s.live ∨ s.nextId ≤ b.id
+def LiveSub (s s' : State) : Prop :=
+  ∀ b ∈ s'.live, b ∈ s.live ∨ (s.nextId ≤ b.id ∧ ∃ k, k < 64 ∧ b.align = 2 ^ k)
 
 theorem LiveSub.of_eq {s s' : State} (h : s'.live = s.live) : LiveSub s s' :=
   fun b hb => Or.inl (h ▸ hb)
@@ -100,7 +101,7 @@ theorem CpOK.mono {s s' : State} {cp : Checkpoint} {m : Nat} (h : CpOK cfg s cp 
   intro b hb hid hs
   rcases hl b hb with hb' | hb'
   · exact placedAt_mono hc (h.older b hb' hid hs)
-  · have := h.mark; omega
+  · have := h.mark; have := hb'.1; omega
 
 theorem FramesOK.mono {s s' : State} (hc : ChunksCov s s') (hl : LiveSub s s') (hn : s.nextId ≤ s'.nextId) :
     ∀ (fs : List Frame) (ma : Nat) (ms : List Nat), FramesOK cfg s ma fs ms → FramesOK cfg s' ma fs ms := by
@@ -250,7 +251,7 @@ theorem disj_congr {s s' : State} (hch : s'.chunks = s.chunks) (h : ChunksDisjoi
 theorem Inv.install {g : GState} (h : Inv cfg g) (resps : List BaseResp) : Inv cfg (install g resps) :=
   ⟨h.cfgOK, geom_congr (s := g.s) rfl rfl rfl h.geom, disj_congr (s := g.s) rfl h.disj,
    liveOK_congr (s := g.s) rfl rfl rfl h.live, h.unalloc,
-   h.notClaimed, h.liveCur, h.ids,
+   h.notClaimed, h.liveCur, h.ids, h.aligns,
    FramesOK.mono (s := g.s) (s' := (Hist.install g resps).s) (ChunksCov.of_eq rfl) (LiveSub.of_eq rfl) (Nat.le_refl _) _ _ _ h.frames, h.marks,
    fun x hx => (h.cps x hx).mono (ChunksCov.of_eq rfl) (LiveSub.of_eq rfl) (Nat.le_refl _),
    fun p hp => (h.prep p hp).congr rfl (fun i c _ hc => ⟨c, hc, rfl, rfl, rfl⟩)⟩
@@ -263,7 +264,8 @@ theorem liveOK_nil {s : State} (h : s.live = []) : Mem.LiveOK cfg s :=
 
 theorem inv_init (hc : CfgOK cfg) : Inv cfg (initG cfg) := by
   obtain ⟨h1, _, h3, h4⟩ := C10.initState_inv hc
-  refine ⟨hc, h1, h4, liveOK_nil rfl, h3, by simp [initG, initState], fun _ => rfl, ?_, ?_, ?_, ?_, ?_⟩
+  refine ⟨hc, h1, h4, liveOK_nil rfl, h3, by simp [initG, initState], fun _ => rfl, ?_, ?_, ?_, ?_, ?_, ?_⟩
+  · intro b hb; simp [initG, initState] at hb
   · intro b hb; simp [initG, initState] at hb
   · simp only [initG, initState, FramesOK]
   · intro m hm; simp [initG] at hm
